@@ -110,7 +110,7 @@ class C19(Prop):
     rule = ("profiles over alternatives 1..m (m <= 5): Euclidean by construction (random generic positions), random "
             "strict profiles, single orders; storage order shuffled; oracle = z3 over all axes; non-trivial = >= 2 "
             "orders and >= 3 alternatives")
-    budget = {"quick": 100, "thorough": 1000}
+    budget = {"quick": 100, "thorough": 3000}
     anchors = [("preflibtools.properties.subdomains.ordinal.euclidean", n) for n in
                ("is_one_euclidean", "_one_euclidean_solve_lp", "_one_euclidean_gen_sets", "_restrict_preferences")] + \
               [("preflibtools.properties.subdomains.ordinal.singlecrossing", "is_single_crossing")]
